@@ -132,7 +132,13 @@ def _run_task(task, repo, use_cvc5=True, stop_on_refuted=False):
             except SymRaise as e:
                 out = Outcome("exc", exc=e)
                 res.exc_paths += 1
-            task.post(ex, inp, out)
+            try:
+                task.post(ex, inp, out)
+            except (KeyError, AttributeError, TypeError, IndexError, ValueError):
+                # the post-condition is written against the shape of the code it was made for; on code of another shape it
+                # cannot be evaluated: undecided (with the reason), neither held nor violated
+                raise Unsupported("post-condition not evaluable on this code shape: " + traceback.format_exc().strip().splitlines()[-1][:200]
+                                  + " @ " + traceback.format_exc().strip().splitlines()[-3].strip()[:120])
         except (PathEnd, Infeasible):
             pass
         except Unsupported as u:
@@ -265,8 +271,15 @@ class FragmentTask(Task):
         fr.loops = {id(n): i for i, n in enumerate(loop_nodes(fdef))}
         fr.vars.update(inp.get("frame", {}))
         ex.call_depth += 1
+        provided = set(inp.get("frame", {}))
         try:
             ex.exec_block(stmts, fr)
+        except SymRaise as e:
+            if e.etype in ("NameError", "UnboundLocalError") and str(e.msg) not in provided:
+                # the fragment reads a name its contract's frame does not provide: the statements around it were renamed or
+                # restructured - undecided, not a violation
+                raise Unsupported(f"the fragment reads '{e.msg}', which the frame of its contract does not provide (restructured code)")
+            raise
         finally:
             ex.call_depth -= 1
         return dict(fr.vars)
